@@ -55,6 +55,12 @@ def shard(ctx):
         rel = [k0, k0[:4] + rng.randbytes(4), rng.randbytes(4) + k0[4:], k0, bytes([k0[0] ^ 1]) + k0[1:], k0[:7] + bytes([k0[7] ^ 0x80]), k0[::-1], k0]
         for k in rel:
             cases.append((k + (rng.randbytes(rng.choice([0, 0, 8])) if rng.random() < 0.3 else b""), rng.randbytes(rng.choice([8, 16, 5])), "related-keys"))
+    # keys whose schedule puts the same entry twice into one S-box ("weak keys", about one key in 33 000; these were found by searching
+    # hex-digit keys with the reference implementation) are keys like any other; so are keys that spell hex digits
+    for k in (b"3653ab5c", b"72e45d1d", b"96603c97", b"cfdf0000", b"00012570", b"0001d8e6"):
+        cases.append((k + (rng.randbytes(rng.choice([0, 4])) if rng.random() < 0.3 else b""), rng.randbytes(rng.choice([8, 24, 5])), "weak-key"))
+    for n in (8, 16, 16, 32, 56):
+        cases.append(("".join(rng.choice(rng.choice(["0123456789abcdef", "0123456789ABCDEF"])) for _ in range(n)).encode(), rng.randbytes(16), "hex-digit-key"))
     # tail of a long key must be insignificant: same first 8 bytes, different tails
     base = rng.randbytes(8)
     for _ in range(4):
